@@ -37,13 +37,17 @@ def run(ctx):
     n = ctx.pick(90, 1500)
     for i, level in enumerate((2, 3)):
         cases += X.generate(ctx, n, ctx.seed + i, K=3, acc=("x", "y"), level=level, maxlen=2,
-                            fates=("ok", "retry1"), maxfail=1)
+                            fates=("ok", "retry1"), maxfail=1, initvals=(0, 9))   # accounts may exist before the block
     # one account, level 3: chains of lockers of the same account, among them transactions that declare a write lock but
     # never touch the account (their Commit has to wait for the earlier writer before the account is handed on)
     cases += X.generate(ctx, n // 2, ctx.seed + 3, K=3, acc=("x",), level=3, maxlen=1, fates=("ok",), world=())
     # the hand-over shape itself (tx 1 writes x, tx 2 write-locks x without touching it, tx 3 reads x), every schedule random
     cases += X.generate(ctx, n // 2, ctx.seed + 4, cfg="Gen_ParallelExecShape.cfg", K=3, acc=("x",), level=3, maxlen=1,
                         fates=("ok",), world=())
+    # retry of a transaction dispatched after a committed world-lock transaction (Reset against the base snapshot), accounts
+    # existing or not existing before the block
+    cases += X.generate(ctx, ctx.pick(30, 300), ctx.seed + 6, cfg="Gen_ParallelExecRetry.cfg", K=3, acc=("x",), level=2, maxlen=2,
+                        fates=("ok", "retry1"), maxfail=1, initvals=(0, 9))
     # blocks with world READ locks and with transactions that call Ensure() in Prepare
     # (schedules of the model with the world read lock as implemented -- later writers do not wait for the reader --
     #  so that the real code can follow them; the values are judged against the sequential reference)
